@@ -37,6 +37,7 @@ func treeOpts(t *rapid.T, thorough bool) gen.Opts {
 	if thorough {
 		o.BigTips = 300
 	}
+	o.Comments, o.OneLine = rapid.IntRange(0, 2).Draw(t, "comments") == 0, true // annotations of other programs: not compared, must not disturb
 	if rapid.Bool().Draw(t, "names-not-supports") {
 		o.InnerNames = gen.AnyPresence
 	} else {
